@@ -643,6 +643,43 @@ def rule_clause_templates(ctx):
                         continue
                 r.check(not missing and not extra, anchor, "missing=%s extra=%s" % (missing, extra), "%d clause templates match the reference encoding" % len(got), "clause templates of %s differ from the reference encoding: missing %s, unexpected %s" % (anchor, missing, [(e, str(where[e].site.loc())) for e in extra]), (where[extra[0]].site.loc() if extra else mb.loc()))
     r.floor(n, 12, "encoder modes compared with their reference encoding")
+    # every argument gets every clause of its mode: in the encoders whose reference has no case distinction on the framework (the
+    # auxiliary-variable and the stable encoders) a clause-issuing call that runs only under a test of the data, with nothing issued on
+    # the other branch, leaves a definition out for some arguments (its variable is then free)
+    def _issues(body, s_):
+        c_ = callee_of(s_)
+        if callee_matches(c_, r"sat_solver::SatSolver::add_clause$"):
+            return True
+        t_ = prog.body_for_callee(c_, body) if c_ and c_.get("decl") != "<indirect>" else None
+        return t_ is not None and t_.kind != "closure" and t_.path.startswith("encodings::") and any(callee_matches(callee_of(x), r"sat_solver::SatSolver::add_clause$") for y in prog.reachable_from([t_], virtual_dispatch=False).values() for z in prog.with_closures(y) for x in z.calls())
+
+    nk = 0
+    for b in sorted(prog.lib_bodies(), key=lambda x: x.id):
+        fnb = prog.enclosing_fn(b)
+        if not re.match(r"^encodings::(aux_var_constraints_encoder|stable_constraints_encoder|stable_encoding)", fnb.path.replace("<", "")):
+            continue
+        for s_ in b.calls():
+            if not _issues(b, s_):
+                continue
+            nk += 1
+            for c_ in conditions(b, s_.bb):
+                if c_.is_discr:
+                    continue
+                sw = c_.switch
+                tg = [bb for _, bb in sw.node["targets"]] + ([sw.node["otherwise"]] if sw.node.get("otherwise") is not None else [])
+                after = {s_.bb} | b.blocks_reachable_from(s_.bb)
+                mine = [t for t in tg if t == s_.bb or b.reaches(t, s_.bb, avoid={sw.bb})]
+                others = [t for t in tg if t not in mine]
+                other_region = set()
+                for t in others:
+                    other_region |= ({t} | b.blocks_reachable_from(t, avoid={sw.bb})) - after
+                both = any(_issues(b, x) for x in b.calls() if x.bb in other_region)
+                anchor = "%s|every-argument" % b.id
+                if both:
+                    r.ok(anchor, "NOT decided: clauses are issued on both branches of a test of the data", s_.loc())
+                else:
+                    r.violation(anchor, "definition-skipped", "a clause-issuing step of this encoder runs only under a test of the framework's data and nothing is issued otherwise: for the arguments that fail the test the clauses (the definition of their auxiliary variable) are missing, so that variable is free in every model", s_.loc())
+    r.floor(nk, 3, "clause-issuing steps of the auxiliary-variable / stable encoders")
     # the defender sets feeding the product encoding
     cds = [b for b in prog.lib_bodies() if b.kind != "closure" and b.path.startswith("encodings::") and b.ret_ty.startswith("(alloc::vec::Vec<alloc::vec::Vec<sat::sat_solver::Literal>>")]
     if r.require_anchor(len(cds) == 1, "function computing the defender sets (returns (Vec<Vec<Literal>>, Vec<Vec<Literal>>))"):
